@@ -721,7 +721,19 @@ pub fn c14(tier: &str, seed: u64) {
           stat("c14.op.import_into_used_server");
         }
         let s = slots[src].as_ref().unwrap();
-        let copy = if exported { export_import_into(&s.server, existing) } else { s.server.clone() };
+        let copy = if exported {
+          // the exporter's own state must always load (whatever the length of its history)
+          match std::panic::catch_unwind(std::panic::AssertUnwindSafe(|| export_import_into(&s.server, existing))) {
+            Ok(c) => c,
+            Err(_) => {
+              let bytes = bincode::serialize(&s.server.get_private_key()).map(|b| b.len()).unwrap_or(0);
+              fail("key_state_import_failed", &[("what", "the key state exported by a server could not be imported (serialise / deserialise / set_private_key aborted)".into()), ("punctured_so_far", format!("{:?}", s.punctured)), ("exported_bytes", bytes.to_string()), ("trace", trace.join(" "))]);
+              s.server.clone()
+            }
+          }
+        } else {
+          s.server.clone()
+        };
         trace.push(format!("{}:{}:{}", if exported { "xi" } else { "cl" }, src, dst));
         let new_slot = Slot { server: copy, key_id: s.key_id, registered: s.registered.clone(), punctured: s.punctured.clone() };
         // indistinguishable at the moment of the copy: internal state, public key, every tag
